@@ -2,6 +2,7 @@ import FluteModel.Lemmas.SessionSeg
 import FluteModel.Lemmas.SessionCodec
 import FluteModel.Lemmas.SessionPart
 import FluteModel.Lemmas.SessionFits
+import FluteModel.Lemmas.SessionCache
 /-
   C01 — clean channel: every accepted object arrives exactly once (once per transfer when
   receive-once is off), nothing is reported as error; an object the wire format cannot carry is
@@ -94,6 +95,31 @@ theorem clean_channel_exact_once_session (cF cO : Codec) (rc : RxCfg) (s : SessC
   rw [hmin] at key
   exact key
 
+/-- **C01 for the receiver as configured** (packet-cache limit = block limit = `object_max_cache_size`):
+    `clean_channel_exact_once_session` with the resource hypothesis in bytes (`FitsBytes`). -/
+theorem clean_channel_exact_once_real (cF cO : Codec) (rc : RxCfg) (s : SessCfg) (o : ObjCfg)
+    (hto : o.toi ≠ 0) (hN : o.ks.isEmpty = false) (hnc : o.noCache = false) (hw : 1 ≤ s.w)
+    (hblocks : ∀ (b k : Nat), o.ks[b]? = some k → 1 ≤ k ∧ blockFails o.scheme k o.p = false)
+    (hm : 1 ≤ o.transfers)
+    (tr trLast : List Sym) (h1 : emitTransfer (objEnc s o false) = some tr) (h2 : emitTransfer (objEnc s o true) = some trLast)
+    (hall : ∀ f, f ∈ s.fdts → f.files.contains o.toi = true)
+    (f : FdtCfg) (hfind : s.fdts.find? (fun x => x.id == f.id) = some f)
+    (hfN : f.ks.isEmpty = false) (hflook : f.ks.size ≤ rc.maxLook)
+    (hfresh : blockDone cF.canDecode f.ks s.fdtP [] 0 = false)
+    (ps1 ps2 : List Pkt)
+    (hfit : FitsBytes rc o (ps1 ++ ps2))
+    (hgenF : ∀ p, p ∈ ps1 → p.toi = 0 → p.fdtId = f.id → Genuine (fdtObj s f) (toSym p) ∧ p.close = false)
+    (hwhole : AllDec cF (fdtObj s f) (fsyms f.id ps1))
+    (hannounce : osyms o ps1 = [])
+    (hlife : osyms o ps2 = life tr trLast o.transfers) :
+    (observe cF.canDecode cO.canDecode rc s o (ps1 ++ ps2)).completes = (if rc.receiveOnce then 1 else o.transfers) ∧
+    (observe cF.canDecode cO.canDecode rc s o (ps1 ++ ps2)).opens = (observe cF.canDecode cO.canDecode rc s o (ps1 ++ ps2)).completes ∧
+    (observe cF.canDecode cO.canDecode rc s o (ps1 ++ ps2)).errors = 0 ∧
+    (observe cF.canDecode cO.canDecode rc s o (ps1 ++ ps2)).interrupts = 0 := by
+  rw [observe_unl cF.canDecode cO.canDecode rc s o hto _ hfit.2.2]
+  exact clean_channel_exact_once_session cF cO (unl rc) s o hto hN (fits_unl rc o _ hfit) hnc hw hblocks hm tr trLast h1 h2
+    hall f hfind hfN hflook hfresh ps1 ps2 hgenF hwhole hannounce hlife
+
 /-- the scheduler only interleaves: whatever the schedule, the packets of a non-carousel object appear in
     the merged stream in the order its block encoder emits them - a prefix of its `life` -/
 theorem scheduler_only_interleaves (o : ObjCfg) (hto : o.toi ≠ 0) (hm : 1 ≤ o.transfers)
@@ -137,8 +163,8 @@ theorem too_large_refused (s : Scheme) (e b p tl aLarge : Nat) (he : 0 < e) (hb 
     within `object_max_cache_size` (default 10 MiB).  (F22: a receiver whose cache is smaller than the
     sender's interleave window times the block size refuses the object - C17 demands that limit.) -/
 theorem cache_holds_object (rc : RxCfg) (o : ObjCfg) (h1 : o.ks.size ≤ rc.maxLook)
-    (h2 : totalBytes o.blen o.blen.size ≤ rc.maxSize) : Fits rc o :=
-  fits_of_total rc o h1 h2
+    (h2 : totalBytes o.blen o.blen.size ≤ rc.maxSize) (h3 : rc.pktCap = none) : Fits rc o :=
+  fits_of_total rc o h1 h2 h3
 
 /-! ### phase 2: the block structure is the RFC 5052 partition (C07) of an accepted object -/
 
